@@ -19,8 +19,8 @@ P_TOL = 1e-9           # property tolerance (relative on A, rad on p)
 # 1e-14 allows a few ulps of a different libm cos per term and is 5 orders below the last digit of SciPy's coefficients.
 WIN_TOL = 1e-14
 # full main-lobe width (null to null) in bins of SciPy's periodic cosine-sum windows
-LOBE = {None: 0, 'hann': 4, 'hamming': 4, 'blackman': 6, 'flattop': 10}
-WINDOWS = [None, 'hann', 'hamming', 'flattop', 'blackman']
+LOBE = {None: 0, 'hann': 4, 'hamming': 4, 'blackman': 6, 'flattop': 10, 'nuttall': 8, 'blackmanharris': 8}
+WINDOWS = [None, 'hann', 'hamming', 'flattop', 'blackman', 'nuttall', 'blackmanharris']
 
 
 def get_window(name, n):
@@ -103,11 +103,11 @@ class C16(FloatSpec):
     ]
     ASSUMPTIONS = ['csd_to_signal inversion is claimed for even lengths only (the function has no length argument)',
                    'tone law with a window is claimed (oracle) for bins farther than the full main-lobe width '
-                   '(hann/hamming 4, blackman 6, flattop 10 bins) from DC and Nyquist; the theorem csd_window_tone '
-                   'covers the larger range M < k < n/2 - M (M = 1, 1, 2, 4)']
+                   '(hann/hamming 4, blackman 6, flattop 10, nuttall/blackmanharris 8 bins) from DC and Nyquist; the theorem '
+                   'csd_window_tone covers the larger range M < k < n/2 - M (M = 1, 1, 2, 4, 3, 3)']
     RULE = ('whole-cycle tones: every length 8..40 x every bin (no window) plus seeded random lengths (even/odd) up to '
             '4096 x random bin, amplitude 1e-3..1e3, phase in (-3.1, 3.1), fs, window in {None, hann, hamming, flattop, '
-            'blackman}, averages 1..8 with 0..avg-1 trailing samples; seeded Gaussian signals with the same grids and '
+            'blackman, nuttall, blackmanharris}, averages 1..8 with 0..avg-1 trailing samples; seeded Gaussian signals with the same grids and '
             'batch shapes; level helpers on random values and arrays. A case is non-trivial when the signal is not '
             'constant; distinct = distinct case hash.')
     exhaustive_note = {
